@@ -1,2 +1,9 @@
 /// bit i of a bit string, false beyond its end
 pub open spec fn bit_at(bits: Seq<bool>, i: int) -> bool { if 0 <= i < bits.len() { bits[i] } else { false } }
+
+/// the range bitfield of one line (C07): one base64 digit per six segments, least significant bit first
+pub open spec fn rmi_bits(s: Seq<u8>) -> Seq<bool> {
+    Seq::new(6 * s.len(), |j: int| bit_of(b64_index(s[j / 6]) as u8, j % 6))
+}
+pub open spec fn rmi_valid(s: Seq<u8>) -> bool { forall|i: int| 0 <= i < s.len() ==> b64_index(#[trigger] s[i]) >= 0 }
+
